@@ -8,6 +8,7 @@ real UnitRegistry/Unit/unyt_array code.  In every reached state the full probe b
 and the three must agree; kept Unit objects must still have the value they had.
 """
 
+import itertools
 import os
 import time
 
@@ -655,6 +656,81 @@ def _seeded(hist, s):
     return False
 
 
+# ---- built-in symbols with listed aliases: every spelling follows an edit of the symbol ------------------------------
+ALIAS_SYMS = ["pc", "Msun", "J", "lb", "N", "yr", "eV", "g", "Hz", "mile"]
+
+
+def alias_spellings(sym):
+    from unyt._unit_lookup_table import default_unit_name_alternatives, default_unit_symbol_lut
+
+    row = default_unit_symbol_lut[sym]
+    alts = list(default_unit_name_alternatives.get(sym, ()))
+    out = [("symbol", sym, 1.0)] + [("alias", a, 1.0) for a in alts]
+    if row[4]:
+        out += [("prefix+symbol", "k" + sym, 1e3), ("prefix+symbol", "M" + sym, 1e6)]
+        out += [("prefix+alias", "k" + a, 1e3) for a in alts if len(a) < 4]
+        out += [("word+alias", "kilo" + a, 1e3) for a in alts] + [("word+alias", "mega" + a, 1e6) for a in alts[:1]]
+    out += [("titled-alias", a.title(), 1.0) for a in alts if a.islower() and len(a) >= 4]
+    return out
+
+
+def part_alias_edits(ctx, shard):
+    """modify / remove / re-add of a BUILT-IN symbol in a custom registry: every spelling of it (symbol, listed aliases, prefixed
+    and word-prefixed forms, inside compounds) follows, whether or not it was used before the edit."""
+    from unyt._unit_lookup_table import default_unit_symbol_lut
+
+    for sym in shard:
+        row = default_unit_symbol_lut[sym]
+        v0, dim0, pref0 = float(row[0]), dim_of(row[1]), bool(row[4])
+        sp = alias_spellings(sym)
+        for warm, edit in itertools.product((False, True), ("modify", "modify-quantity", "remove", "readd-same-flags", "readd-nonprefixable")):
+            world.reset_world()
+            r = UnitRegistry()
+            if warm:
+                for _c, name, _f in sp:
+                    resolve_real(r, name)
+                    resolve_real(r, name + "/s")
+            try:
+                if edit == "modify":
+                    r.modify(sym, v0 * 3.0)
+                elif edit == "modify-quantity":
+                    r.modify(sym, unyt.unyt_quantity(3.0, sym))
+                elif edit == "remove":
+                    r.remove(sym)
+                elif edit == "readd-same-flags":
+                    r.add(sym, v0 * 3.0, row[1], prefixable=pref0)
+                else:
+                    r.add(sym, v0 * 3.0, row[1], prefixable=False)
+            except Exception as e:  # noqa: BLE001
+                ctx.violation(f"C12|alias-edit|edit={edit}|mode=edit-raises:{type(e).__name__}", {"part": "alias-edit", "sym": sym, "edit": edit, "warm": warm}, "ok", str(e)[:80])
+                continue
+            now_pref = pref0 if edit != "readd-nonprefixable" else False
+            for cls, name, fac in sp:
+                for form, text, k in (("plain", name, 1), ("compound", name + "/s", 1), ("power", name + "**2", 2)):
+                    ctx.count("evaluations")
+                    got = resolve_real(r, text)
+                    gone = edit == "remove" or (fac != 1.0 and not now_pref)
+                    ctx.decided(("alias-edit", sym, name, form, warm, edit))
+                    ctx.outcome(("alias-edit", cls, form, warm, edit, got[0]))
+                    case = {"part": "alias-edit", "sym": sym, "spelling": text, "edit": edit, "warm": warm}
+                    from unyt._unit_lookup_table import inv_name_alternatives as _inv
+
+                    canon_name = _inv.get(name, name)  # classification only: the table key the spelling resolves through
+                    left = canon_name in r.lut and canon_name not in default_unit_symbol_lut
+                    cause = "derived-prefixed-row-left-in-table" if left else "none"
+                    base = f"C12|alias-edit|spelling={cls}|form={form}|edit={edit}|warm={int(warm)}|cause={cause}"
+                    if gone:
+                        if got[0] == "ok":
+                            ctx.violation(base + "|mode=resolves-after-removal", case, "unknown", got)
+                        continue
+                    want_scale = (v0 * 3.0 * fac) ** k
+                    if got[0] != "ok":
+                        ctx.violation(base + f"|mode={got[0]}-but-defined", case, want_scale, got)
+                    elif abs(got[1] - want_scale) > 1e-12 * abs(want_scale) or got[3] != (dim0**k if form == "power" else (dim0 / rd.time if form == "compound" else dim0)):
+                        ctx.violation(base + "|mode=stale-value", case, want_scale, got)
+    world.reset_world()
+
+
 # ---- entry points ------------------------------------------------------------------------------------
 def run(ctx):
     t0 = time.time()
@@ -669,7 +745,11 @@ def run(ctx):
     # orders that need two user symbols to exist do not spend the edit budget on creating them
     populated = System(system.edits, system.seeds, prefix=POPULATED)
     stats2 = explore.explore(ctx, populated, depth - 1 if ctx.tier == "quick" else depth, dev, deadline=time.time() + budget)
+    from mc import harness as _h
+
+    _h.pmap(ctx, part_alias_edits, [[x] for x in ALIAS_SYMS])
     cov = dict(stats)
+    cov["alias_edit_symbols"] = ALIAS_SYMS
     cov.update({k + "_populated_start": v for k, v in stats2.items()})
     cov["populated_start"] = [list(e) for e in POPULATED]
     cov["states"] = stats["bfs_states"] + stats2["bfs_states"]  # distinct canonical states reached by the two searches
@@ -701,6 +781,10 @@ def run(ctx):
 def replay(case):
     from mc import harness
 
+    if case.get("part") == "alias-edit":
+        ctx = harness.Ctx(PROPERTY, "quick", 0)
+        part_alias_edits(ctx, [case["sym"]])
+        return [(k, v) for k, v in ctx.violations.items()]
     hist = tuple(tuple(e) for e in case["history"])
     system = System(EDITS_THOROUGH, SEEDS_THOROUGH, prefix=tuple(tuple(e) for e in case.get("prefix", ())))
     ctx = harness.Ctx(PROPERTY, "quick", 0)
